@@ -223,6 +223,9 @@ def fifo(ctx):
         for fld in sorted(e.detail["fields"]):
             how = e.detail.get("how")
             allowed = MUTATORS.get((role, e.kind, fld))
+            if allowed is None and fld not in ("awaiting_ack", "subscriptions", "retrasmit_queue"):
+                # inbound-only bookkeeping collections (e.g. the set of unreleased inbound QoS 2 identifiers)
+                allowed = {("inbound", "Push"): {"back"}, ("inbound", "Remove"): {"keyed", "retain"}, ("reset_session", "Clear"): {None}}.get((role, e.kind))
             ok = allowed is not None and how in allowed
             out.append(Inst("FIFO", "%s:%s(%s):%s" % (role, e.kind, fld, e.detail["method"]), ok, e.site(),
                             "%s.%s(..) in %s" % (fld, e.detail["method"], role),
